@@ -14,10 +14,19 @@ use serde_json::json;
 
 fn main() {
     let r = Report::from_args("C19");
-    // quick: preemption bound 2, two threads per body (three for the bodies
-    // whose point is a third party); thorough: bound 3, all threads.
+    // preemption bounds per body size: see below
     let bound = if r.quick() { 2 } else { 3 };
-    let root = std::path::PathBuf::from(format!("/verif/.build/c19/loom-{}", std::process::id()));
+    // scratch: `C19_SCRATCH`, else a memory-backed directory when there is one
+    // (every execution rewrites the zone files), else the build tree
+    let base = std::env::var("C19_SCRATCH").unwrap_or_else(|_| {
+        let shm = "/dev/shm/verif-c19";
+        if std::fs::create_dir_all(shm).is_ok() {
+            shm.to_string()
+        } else {
+            "/verif/.build/c19".to_string()
+        }
+    });
+    let root = std::path::PathBuf::from(format!("{}/loom-{}", base, std::process::id()));
     let _ = std::fs::remove_dir_all(&root);
     std::fs::create_dir_all(&root).unwrap();
     let mut total_exec = 0u64;
@@ -28,10 +37,11 @@ fn main() {
             r.section(&sec, || {
                 let nthreads = body.threads.len();
                 let max_threads = nthreads;
-                // preemption bounds: two-thread bodies quick 3 / thorough 5,
-                // three-thread bodies quick 2 / thorough 3 (env overrides for experiments)
+                // preemption bounds: two-thread bodies quick 4 / thorough 16 (their
+                // execution counts stop growing around 12: exhaustive in effect),
+                // three-thread bodies quick 3 / thorough 4 (env overrides for experiments)
                 let envb = |k: &str, d: usize| std::env::var(k).ok().and_then(|v| v.parse().ok()).unwrap_or(d);
-                let b = if max_threads >= 3 { envb("C19_B3", if r.quick() { 2 } else { 3 }) } else { envb("C19_B2", if r.quick() { 3 } else { 5 }) };
+                let b = if max_threads >= 3 { envb("C19_B3", if r.quick() { 3 } else { 4 }) } else { envb("C19_B2", if r.quick() { 4 } else { 16 }) };
                 let _ = bound;
                 let res = bodies::run(body, backend, b, root.clone(), max_threads);
                 total_exec += res.executions;
@@ -42,6 +52,10 @@ fn main() {
                 r.count(&format!("executions[{}]", sec), res.executions);
                 if res.executions < 2 {
                     r.count("bodies_with_one_execution", 1);
+                }
+                // a disk change racing the lookups must be seen from both sides
+                if body.writer.is_some() && res.outcomes.len() < 2 {
+                    r.count("writer_bodies_with_one_outcome", 1);
                 }
                 r.count(&format!("distinct_outcomes[{}]", sec), res.outcomes.len() as u64);
                 for (o, n) in &res.outcomes {
@@ -65,6 +79,7 @@ fn main() {
         r.require(total_exec > 200, "loom explored more than 200 executions");
         let _ = distinct;
         r.require(r.get_count("bodies_with_one_execution") == 0, "every body explored more than one interleaving");
+        r.require(r.get_count("writer_bodies_with_one_outcome") == 0, "every body with a concurrent disk change observed both the old and the new data");
     }
     r.finish();
 }
